@@ -838,7 +838,8 @@ fn deep_cases(thorough: bool) -> Vec<(String, &'static str)> {
     for shape in DEEP_SHAPES.iter().take(24) {
         for &n in ns { v.push((format!("DQ {} {}", shape, n), "api_deep")); }
     }
-    // the regimes of the recorded stack-overflow findings (kept few: each costs a worker restart)
+    // the regime of the recorded stack-overflow finding F-C22-11 (kept few: each abort costs a worker restart) and of the
+    // repaired lexer finding F-C22-12 (200000 consecutive comments: must return now)
     v.push(("DQ parens 5000".to_string(), "api_deep"));
     v.push(("DQ comments 200000".to_string(), "api_deep"));
     if thorough { for s in ["not", "neg", "case", "scalarsubq", "func", "bcomments"] { v.push((format!("DQ {} 100000", s), "api_deep")); } }
@@ -907,7 +908,7 @@ fn lex_inputs(rng: &mut Rng, n: usize) -> Vec<(String, &'static str)> {
 
 fn gen(a: &Args) {
     let mut rng = Rng::new(a.seed);
-    let mut w = CaseWriter::new(&a.out, "C22", "Corr.C22", 400);
+    let mut w = CaseWriter::new(&a.out, "C22", "Corr.C22", if a.thorough() { 400 } else { 120 });
     let mut lexes: Vec<(String, &'static str)> = vec![];
     let mut lits: Vec<(String, String, &'static str)> = vec![];
     let mut apis: Vec<(String, &'static str)> = vec![];
@@ -919,7 +920,7 @@ fn gen(a: &Args) {
             else if let Some(r) = l.strip_prefix("api ") { apis.push((r.to_string(), "replay")); }
         }
     } else {
-        let (nl, nt, na) = if a.thorough() { (30_000, 8_000, 20_000) } else { (2_400, 900, 1_500) };
+        let (nl, nt, na) = if a.thorough() { (30_000, 8_000, 20_000) } else { (330, 150, 330) };
         lexes = lex_inputs(&mut rng, nl);
         lits = literal_inputs(&mut rng, nt);
         apis = deep_cases(a.thorough());
